@@ -247,6 +247,9 @@ func safeWrites(t *rapid.T, k *compKind, ws []Write) []Write {
 	}
 	if k == serviceKind {
 		s.set("telemetry::metrics::level", vText("none"), "#base") // no listening prometheus endpoint
+		if s.has("telemetry::logs::encoding") && s.val("telemetry::logs::encoding") == "" {
+			s.del("telemetry::logs::encoding") // loads and validates, but no logger can be built at Start
+		}
 	}
 	fixup(t, s)
 	return s.writes()
